@@ -158,6 +158,10 @@ def run(ctx):
                         asg["offset_hist[%s]" % H.show(n["l"]["idx"])] = _le_src(ix, n["r"])
                 elif root is not None and root.get("k") == "Local" and names == ["id"]:
                     asg["id"] = _le_src(ix, n["r"])
+                elif root is not None and root.get("k") == "Local" and names == ["offset_hist"] and hq.peel(n["r"]).get("k") == "Array":
+                    # the three members stored at once: offset_hist = [a, b, c]
+                    for i_, el_ in enumerate(hq.peel(n["r"])["elems"]):
+                        asg["offset_hist[%d]" % i_] = _le_src(ix, el_)
         tail = chain[-1] + "[%s..]" % _result_name(ix, calls[-1]) if calls else "?"
         want_asg = {"id": "$0[4..8]", "offset_hist[0]": tail + "[..4]", "offset_hist[1]": tail + "[4..8]",
                     "offset_hist[2]": tail + "[8..12]"}
